@@ -159,6 +159,40 @@ func newServer(lsys ipld.LinkSystem, key ic.PrivKey) *server {
 
 var sharedSync *ipnisync.Sync
 
+// The option matrix of ipnisync.NewSync.  "" is the default client (what the Subscriber
+// builds, apart from timeouts); the others are what a direct user of the package may set.
+// curOpt selects the client the GetHead drivers use.
+var (
+	clientOpts = map[string][]ipnisync.ClientOption{
+		"":                    nil,
+		"auth-server-peer-id": {ipnisync.ClientAuthServerPeerID(true)},
+		"retry":               {ipnisync.ClientHTTPRetry(1, time.Millisecond, 2*time.Millisecond)},
+		"timeout":             {ipnisync.ClientHTTPTimeout(5 * time.Second)},
+		"auth-server-peer-id+retry+timeout": {ipnisync.ClientAuthServerPeerID(true), ipnisync.ClientHTTPRetry(1, time.Millisecond, 2*time.Millisecond),
+			ipnisync.ClientHTTPTimeout(5 * time.Second)},
+		"no-auth-explicit+stream-host-nil": {ipnisync.ClientAuthServerPeerID(false), ipnisync.ClientStreamHost(nil)},
+	}
+	optOrder = []string{"", "auth-server-peer-id", "retry", "timeout", "auth-server-peer-id+retry+timeout", "no-auth-explicit+stream-host-nil"}
+	syncs    = map[string]*ipnisync.Sync{}
+	curOpt   string
+)
+
+func syncFor(opt string) *ipnisync.Sync {
+	if opt == "" {
+		return sharedSync
+	}
+	if s, ok := syncs[opt]; ok {
+		return s
+	}
+	o, ok := clientOpts[opt]
+	if !ok {
+		panic("unknown client option set " + opt)
+	}
+	s := ipnisync.NewSync(mkLinkSystem(dssync.MutexWrap(datastore.NewMapDatastore())), nil, o...)
+	syncs[opt] = s
+	return s
+}
+
 type callResult struct {
 	kind string // ok | err | panic
 	cid  cid.Cid
@@ -171,7 +205,7 @@ func runGetHead(s *server, expected peer.ID) (r callResult) {
 			r = callResult{kind: "panic", err: fmt.Sprint(x)}
 		}
 	}()
-	syncer, err := sharedSync.NewSyncer(peer.AddrInfo{ID: expected, Addrs: []multiaddr.Multiaddr{s.maddr}})
+	syncer, err := syncFor(curOpt).NewSyncer(peer.AddrInfo{ID: expected, Addrs: []multiaddr.Multiaddr{s.maddr}})
 	if err != nil {
 		return callResult{kind: "err", err: "NewSyncer: " + err.Error()}
 	}
